@@ -54,7 +54,8 @@ def run(ctx):
         return
     delays = [l for l in lines if l.get("kind") == "delay"]
     lives = [l for l in lines if l.get("kind") == "live"]
-    signs = [l for l in lines if l.get("kind") == "case"]
+    signs = [l for l in lines if l.get("kind") == "case" and l.get("wire") is not None]
+    inconclusive = [l for l in lines if l.get("kind") == "case" and l.get("wire") is None]
     errors = [l for l in lines if l.get("kind") == "error"]
 
     new, seen = 0, set()
@@ -142,6 +143,7 @@ def run(ctx):
         "rule": "renewal delay of the real code (uasc.renewalDelay via hook) for boundary lifetimes (1 ms .. 2^32-1 ms, the old truncation boundaries 1.333 s / 2 s / 2.667 s / 4 s, odd nanosecond values) + seeded random lifetimes, compared with go_renewalDelay inside Coq; live channels with lifetimes 400 ms and 1000 ms renewing for 1.9 s under a continuous request load, and with the server's clock 500 ms ahead / 400 ms behind (createdAt shifted, lifetime 1000 ms), and behind a server that revises the requested lifetime down (60 s -> 1 s) and up (1 s -> 4 s); the former renewal-window schedule (the renewal is now held back) and a renewal between two requests forced on a Basic256Sha256/Sign channel",
         "samples": delays[:2] + [{"live": lv["lifetime_ms"], "opn_at_ms": lv["opn_at_ms"]} for lv in lives] + [{"scenario": c["scenario"], "results": c["results"], "server_errors": c.get("server_errors")} for c in signs],
         "renewal_gaps_ms": gaps_all,
+        "inconclusive": len(inconclusive),
         "live_runs_overloaded": [lv["lifetime_ms"] for lv in lives if lv.get("stall_ms", 0.0) > 40.0],
         "max_scheduling_stall_ms": max([lv.get("stall_ms", 0.0) for lv in lives] or [0.0]),
         "requests_during_live_renewals": sum(lv["requests"] for lv in lives),
